@@ -79,7 +79,7 @@ def import_order(files, base):
 
 
 def run(ctx):
-    proof_ok, can_run = common.prepare(ctx, release=True)
+    proof_ok, can_run = common.prepare(ctx, "C09+C09loc", release=True)
     if not can_run:
         common.broken_without_input(ctx, "build", ctx.notes[-1] if ctx.notes else "")
         return
